@@ -53,6 +53,10 @@ def foreign_forms(rep, prop):
     for i, a in enumerate(feats):
         for b in feats[i:]:
             jobs.append({"wb": jsongen.build(sorted({a, b})), "fmt": "dict", "tag": {"features": sorted({a, b})}})
+    # an OSM question whose tags carry translated labels (the osm sheet is a choices-like sheet)
+    jobs.append({"wb": {"sheets": [{"name": "survey", "header": ["type", "name", "label::en", "label::fr"], "rows": [["osm building_tags", "q1", "Q en", "Q fr"]]},
+                                   {"name": "osm", "header": ["list_name", "name", "label::en", "label::fr"], "rows": [["building_tags", "building", "Building", "Batiment"], ["building_tags", "roof", "Roof", None]]}]},
+                 "fmt": "dict", "tag": {"osm_tag_labels": "translated"}})
     outs = conv.map_cases(_run_free, jobs, chunksize=16)
     for o in outs:
         if o.get("status") == "harness_error":
@@ -68,7 +72,8 @@ def foreign_forms(rep, prop):
         if i in acc:
             continue
         l, clause = info["progress"].get(i, (0, "unexplained_event"))
-        rep.violation(f"{prop}:{clause}:foreign", f"clause {clause}; form={o['tag']} obs_langs={o['trace'][0]['obs']['langs']} refs={o['trace'][0]['obs']['refs'][:6]}"[:500],
+        kind = "osm_tag_labels" if "osm_tag_labels" in (o["tag"] or {}) else "foreign"
+        rep.violation(f"{prop}:{clause}:{kind}", f"clause {clause}; form={o['tag']} obs_langs={o['trace'][0]['obs']['langs']} refs={o['trace'][0]['obs']['refs'][:6]}"[:500],
                       {"foreign": True, "tag": o["tag"], "fmt": o["fmt"], "wb": o["wb"], "kwargs": o["kwargs"], "clause": clause})
 
 
